@@ -7,6 +7,13 @@ and every statement they hand to `session.run` is recorded as (text, params) in 
 
 The canned results are only there to let each operation run to its end (so that *all* of its
 statements are issued); nothing is concluded from them.
+
+Caller-controlled result sets: `canned` may be a callable (text, params) -> canned dict (it can find out which backend
+frame called run() from `driver.where[-1]`); a canned dict with the key "records" (a list of dicts, one per record, in
+column order) is answered with exactly those records (ScriptedResult: an empty list is an empty result for every
+accessor), so that a harness decides which follow-up statements an operation gets to issue and which VALUES flow from
+the results into them.  `{"empty": True}` keeps the permissive record shape but answers every accessor with nothing;
+"any" is the list handed out for a column the canned dict does not name.
 """
 import logging
 import sys
@@ -33,7 +40,7 @@ class _CannedDict(dict):
             return c.get("link_type", "has")
         if key == "data":
             return c.get("graphml", "None")
-        return list(c.get(key, ["n1"]))
+        return list(c.get(key, c.get("any", ["n1"])))
 
     def get(self, key, default=None):
         return self[key]
@@ -82,6 +89,68 @@ class FakeResult:
         return iter([] if self._c.get("empty") else [FakeRecord(self._c)])
 
 
+class ScriptedRecord:
+    """one record with exactly the columns the harness scripted (dict order = column order)"""
+
+    def __init__(self, d):
+        self._d = dict(d)
+
+    def data(self):
+        return dict(self._d)
+
+    def value(self, key=0, default=None):
+        if isinstance(key, int):
+            vs = list(self._d.values())
+            return vs[key] if -len(vs) <= key < len(vs) else default
+        return self._d.get(key, default)
+
+    def values(self):
+        return list(self._d.values())
+
+    def keys(self):
+        return list(self._d)
+
+    def items(self):
+        return list(self._d.items())
+
+    def get(self, key, default=None):
+        return self._d.get(key, default)
+
+    def __getitem__(self, key):
+        return self.value(key) if isinstance(key, int) else self._d[key]
+
+    def __len__(self):
+        return len(self._d)
+
+    def __iter__(self):
+        return iter(self._d.values())
+
+
+class ScriptedResult:
+    """a result made of exactly the scripted records"""
+
+    def __init__(self, records):
+        self._r = [ScriptedRecord(r) for r in records]
+
+    def single(self):
+        return self._r[0] if self._r else None
+
+    def peek(self):
+        return self._r[0] if self._r else None
+
+    def value(self, key=0, default=None):
+        return [r.value(key, default) for r in self._r]
+
+    def values(self):
+        return [r.values() for r in self._r]
+
+    def data(self):
+        return [r.data() for r in self._r]
+
+    def __iter__(self):
+        return iter(self._r)
+
+
 class FakeSession:
     def __init__(self, driver):
         self.d = driver
@@ -101,6 +170,10 @@ class FakeSession:
         canned = self.d.canned
         if callable(canned):
             canned = canned(text, params)
+        if isinstance(canned, dict) and "records" in canned:
+            return ScriptedResult(canned["records"])
+        if isinstance(canned, dict) and canned.get("empty"):
+            return ScriptedResult([])
         return FakeResult(canned)
 
     # transaction style, should the backend ever move to it
